@@ -204,22 +204,30 @@ def decLimit (children : List Node) : Except Err (Option Nat) :=
       | some _ => .ok (some 0)
     | _ => .ok none
 
+/-- the data request carried by the last DAV:prop child of a report root -/
+def dataReqOf (children : List Node) : Except Err (Bool × List String) :=
+  match (children.filter (·.isElem nsDav "prop")).getLast? with
+  | some (.elem _ _ pc) => decDataReq pc
+  | _ => .ok (false, [])
+
+/-- the filter child of an addressbook-query: its test and prop-filters -/
+def filterOf (children : List Node) : Except Err (String × List PropFilter) :=
+  match (children.filter (·.localIs "filter")).getLast? with
+  | some (.elem fq fattrs fc) => do
+    if fq.space ≠ nsCard then .error .badRequest else
+    let test ← decEnum carddavFilterTests fattrs "test"
+    let pfs ← (fc.filter (·.localIs "prop-filter")).mapM decPropFilter
+    pure (test, pfs)
+  | _ => .ok ("", [])
+
 /-- what `handleQuery` hands to the backend: `none` = answered with an empty multi-status without consulting it
     (a limit of zero) -/
 def decodeQuery (n : Node) : Except Err (Option Query) :=
   match n with
   | .elem name _ children =>
     if !(name.space == nsCard && name.loc == "addressbook-query") then .error .badRequest else do
-    let dataReq ← (match (children.filter (·.isElem nsDav "prop")).getLast? with
-      | some (.elem _ _ pc) => decDataReq pc
-      | _ => .ok (false, []))
-    let (test, pfs) ← (match (children.filter (·.localIs "filter")).getLast? with
-      | some (.elem fq fattrs fc) => do
-        if fq.space ≠ nsCard then .error .badRequest else
-        let test ← decEnum carddavFilterTests fattrs "test"
-        let pfs ← (fc.filter (·.localIs "prop-filter")).mapM decPropFilter
-        pure (test, pfs)
-      | _ => .ok ("", []))
+    let dataReq ← dataReqOf children
+    let (test, pfs) ← filterOf children
     let limit ← decLimit children
     match limit with
     | some 0 => pure none
@@ -227,17 +235,19 @@ def decodeQuery (n : Node) : Except Err (Option Query) :=
     | none => pure (some ⟨dataReq.1, dataReq.2, test, pfs, 0⟩)
   | _ => .error .badRequest
 
+/-- one DAV:href child: its character data through `url.Parse(...).Path` -/
+def decHref (unescape : String → Option String) (h : Node) : Except Err String :=
+  match h with
+  | .elem _ _ hc => (match unescape (chardata hc) with | some p => .ok p | none => .error .badRequest)
+  | _ => .error .badRequest
+
 /-- `handleMultiget`: the data request and the hrefs in document order (`unescape` = url.Parse(...).Path) -/
 def decodeMultiGet (unescape : String → Option String) (n : Node) : Except Err MultiGet :=
   match n with
   | .elem name _ children =>
     if !(name.space == nsCard && name.loc == "addressbook-multiget") then .error .badRequest else do
-    let dataReq ← (match (children.filter (·.isElem nsDav "prop")).getLast? with
-      | some (.elem _ _ pc) => decDataReq pc
-      | _ => .ok (false, []))
-    let hrefs ← (children.filter (·.isElem nsDav "href")).mapM (fun h => match h with
-      | .elem _ _ hc => (match unescape (chardata hc) with | some p => .ok p | none => .error .badRequest)
-      | _ => .error .badRequest)
+    let dataReq ← dataReqOf children
+    let hrefs ← (children.filter (·.isElem nsDav "href")).mapM (decHref unescape)
     pure ⟨dataReq.1, dataReq.2, hrefs⟩
   | _ => .error .badRequest
 
